@@ -562,6 +562,10 @@ package bkl
 //@     invariant (=> (quiet m (- depth 1)) (forall ((j String)) (=> (select visited j) (= (select (mc ret) j) (ite (= (dropF (select (mc m) j)) VNil) VAbsent (dropF (select (mc m) j)))))))   [C06]
 //@     invariant (=> (quiet m (- depth 1)) (forall ((j String)) (=> (not (select visited j)) (= (select (mc ret) j) VAbsent))))   [C06]
 //@   decreases (- 1002 depth) 9
+//@   at call process2#1
+//@     assert (and (= obj@arg v) (= ec@arg ec) (= mergeFrom@arg mergeFrom) (= depth@arg depth))              [C13] [C12] [C14]
+//@   at call process2#2
+//@     assert (and (= obj@arg (VStr k)) (= ec@arg ec) (= mergeFrom@arg mergeFrom) (= depth@arg depth))       [C13] [C12]   -- keys are evaluated like values
 //@   at call process2Encode#1
 //@     assert (and (not (= v@arg VAbsent)) (= (select (mapOf obj@arg) "$encode") VAbsent))                  [C14]
 //@   at call process2Decode#1
@@ -618,12 +622,20 @@ package bkl
 //@     assert (= (EvalContext.Vars ec) (VMap (store (mapOf (old (EvalContext.Vars ec@pre))) "$repeat" (VInt i))))   [C12]
 //@   at call process2#2
 //@     assert (= (EvalContext.Vars ec) (VMap (store (mapOf (old (EvalContext.Vars ec@pre))) "$repeat" (VInt i))))   [C12]
+//@     assert (and (= obj@arg (VStr k)) (= depth@arg depth) (= mergeFrom@arg mergeFrom))                       [C12]
+//@   loop 1
+//@     invariant (and (= i@loop 0) (<= 0 i) (<= i (ite (< r2 0) 0 r2)))                                        [C12]   -- the copies are indexed 0 .. n-1
+//@     transition (= i (+ i@iter 1))                                                                        [C12]
 //@ func process2RepeatObjList(v, mergeFrom, mergeFromDocs, ec, r, depth) (res, err)
 //@   propagates all   [C08]
 //@   decreases (- 1002 depth) 2
 //@   ensures (=> (not ((_ is VInt) r)) (isErr err))                                                       [C12]
 //@   at call process2#1
 //@     assert (= (EvalContext.Vars ec) (VMap (store (mapOf (old (EvalContext.Vars ec@pre))) "$repeat" (VInt i))))   [C12]
+//@     assert (and (= obj@arg v) (= depth@arg depth) (= mergeFrom@arg mergeFrom))                               [C12]
+//@   loop 1
+//@     invariant (and (= i@loop 0) (<= 0 i) (<= i (ite (< r2 0) 0 r2)))                                        [C12]   -- the copies are indexed 0 .. n-1
+//@     transition (= i (+ i@iter 1))                                                                        [C12]
 
 // ------------------------------------------------------------------------------------------------- get.go (termination)
 
